@@ -92,6 +92,55 @@ def is_last_element_form(t, taint):
     return False
 
 
+def r_accept_exact(F, R, cat=None):
+    """`Stride::push` accepts a value by comparing it with the next element of the progression,
+    stride * count.  The comparison has to be with the exact product: `checked_mul` (None when it
+    overflows) compares equal to no value.  Arithmetic that *substitutes* a value on overflow --
+    saturating_mul / saturating_add / wrapping_mul / wrapping_add -- makes an ordinary pushed value
+    (usize::MAX, or the wrapped product) compare equal to a product that does not exist: the
+    value is accepted as a step, and `index` (which multiplies exactly) reads something else or
+    overflows.  Positive evidence: a branch of Stride::push whose condition relates the pushed
+    value to such a call on the stored state."""
+    from core import all_ctxs
+    from expr import edge_facts, nobb
+    from r_alloc import walk
+    SUBST = ("saturating_mul", "saturating_add", "wrapping_mul", "wrapping_add", "unchecked_mul", "unchecked_add")
+    n = 0
+    for b in F.bodies.values():
+        if b.self_adt != STRIDE or b.name != "push" or b.trait is not None or b.in_tests():
+            continue
+        R.saw(b)
+        for ctx in all_ctxs(F, b):
+            body = ctx.body
+            for s_ in sorted(body.live_blocks()):
+                if body.term(s_)["k"] != "switch":
+                    continue
+                seen_here = False
+                for (_tgt, fs) in edge_facts(ctx, s_):
+                    for f in fs:
+                        xs = [nobb(x) for x in f[1:3] if isinstance(x, tuple)]
+                        calls = [nd for x in xs for nd in walk(x) if nd[0] == "call" and nd[1][1] in SUBST]
+                        item = any(nd[0] == "place" and nd[2] == ("arg", 2) for x in xs for nd in walk(x))
+                        state = any(nd[0] == "place" and nd[2] == ("arg", 1) for c in calls for nd in walk(c))
+                        if f[0] in ("Eq", "Ne", "truthy") and item:
+                            n += 1
+                        if calls and item and state and not seen_here:
+                            seen_here = True
+                            if any(callee_tag(t_.get("callee"))[1] in ("checked_mul", "overflowing_mul", "checked_add", "overflowing_add",
+                                                                      "widening_mul", "carrying_mul")
+                                   for c_ in all_ctxs(F, b) for (_b, t_) in c_.body.calls()):
+                                R.undecided_site("R-OVF", b.label(), "the pushed value is compared with %s, and the function also checks "
+                                                 "for overflow separately: whether the check covers this comparison is not decided" %
+                                                 show(calls[0])[:80])
+                                continue
+                            R.check("R-OVF", b.label(), False, construct="acceptance compares with the exact next element",
+                                    where="%s:%s" % (body.file, body.term(s_).get("line", b.line)),
+                                    detail="the pushed value is compared with %s: on overflow the call substitutes a value "
+                                           "(usize::MAX / the wrapped product) that an ordinary pushed value can equal, which is then "
+                                           "accepted as a step although stride * count does not exist" % show(calls[0])[:80])
+    R.info("R-OVF: %d comparisons of the pushed value in Stride::push inspected" % n)
+
+
 def r_ovf(F, R, cat=None):
     cat = cat or Catalogue(F)
     taint, pb = tainted_fields(F, cat)
@@ -160,6 +209,33 @@ def r_ovf(F, R, cat=None):
                 # caller's position < len (R-BOUND at every call site) gives that; where the
                 # length is larger (a repeated tail), the multiplication itself must sit under
                 # position < count.
+                for (s, p, p_op) in ((a, c, t["b"]), (c, a, t["a"])):
+                    if p[0] == "phi" and s[0] == "place" and s[2] == ("arg", 1) and p_op.get("k") in ("copy", "move") and \
+                            counts.get(tuple(s[3][:-1])) is not None:
+                        # `let position = if index < steps { index } else { steps - 1 }; stride * position`:
+                        # each alternative is judged where it is selected
+                        from r_codec import literal_selection_blocks
+                        from expr import nobb
+                        cnt_ = counts[tuple(s[3][:-1])]
+                        all_ok = True
+                        for alt in p[1]:
+                            na = nobb(alt)
+                            if na[0] == "bin" and na[1] == "Sub" and na[3] == ("const", "1") and na[2][0] == "place" and \
+                                    tuple(na[2][3]) == cnt_:
+                                continue  # the last accepted element
+                            if na == ("place", b.key, ("arg", 2), ()):
+                                sel = literal_selection_blocks(ctx, p_op, (("arg", 2), ()))
+                                good_sel = bool(sel) and all(any(
+                                    (f[0] == "Lt" and nobb(f[1]) == na and f[2][0] == "place" and tuple(f[2][3]) == cnt_) or
+                                    (f[0] == "Gt" and nobb(f[2]) == na and f[1][0] == "place" and tuple(f[1][3]) == cnt_)
+                                    for f in facts_at(ctx, sb)) for sb in sel)
+                                if good_sel:
+                                    continue
+                            all_ok = False
+                        if all_ok:
+                            ok = True
+                            why = "stride * (position under position < count, else count - 1): bounded by the last accepted element"
+                            continue
                 for (s, p) in ((a, c), (c, a)):
                     if p[0] == "call" and p[1][1] == "min" and len(p[2]) == 2 and s[0] == "place" and s[2] == ("arg", 1):
                         # stride * min(position, count - 1): never beyond the last accepted element
@@ -289,6 +365,33 @@ def _payload_receivers(b, res_local):
     return out
 
 
+def _assertion_expansion(b, bi):
+    """the diverging call at bi comes out of an assert-family macro: `assert_failed` (the _eq/_ne
+    forms) or a panic whose message starts with `assertion failed`"""
+    t = b.term(bi)
+    tag = callee_tag(t.get("callee"))
+    if tag[1] in ("assert_failed", "assert_failed_inner"):
+        return True
+    macs = [m for m in str(t.get("mac") or "").split(",") if m]
+    if any(m in ("assert", "debug_assert", "assert_eq", "assert_ne", "debug_assert_eq", "debug_assert_ne") for m in macs):
+        return True  # (with a custom message the text does not say "assertion failed")
+    for a in t.get("args", []):
+        if a.get("k") == "const" and "assertion failed" in str(a.get("s", "")):
+            return True
+    # panic_fmt(format_args!("assertion failed: ..")) -- look at the constants feeding the call
+    for st in b.blocks[bi]["stmts"]:
+        if "assertion failed" in repr(st.get("rv", "")):
+            return True
+    for p in b.preds(bi):
+        for st in b.blocks[p]["stmts"]:
+            if "assertion failed" in repr(st.get("rv", "")):
+                return True
+        pt = b.term(p)
+        if pt["k"] == "call" and any("assertion failed" in str(a.get("s", "")) for a in pt.get("args", []) if isinstance(a, dict)):
+            return True
+    return False
+
+
 def r_panic_edges(F, R):
     bodies = [b for b in F.bodies.values() if not b.in_tests() and (
         (b.self_adt in (STRIDE, "impls::index::IndexList", "impls::index::IndexOptimized") and
@@ -339,6 +442,12 @@ def r_panic_edges(F, R):
                         R.check("R-PANIC", b.label(), True, construct="panic on the Err arm of usize -> u64",
                                 where=where, detail="accepted: the conversion cannot fail on supported targets")
                         continue
+                    if t.get("exp") and tag[1] in ("assert_failed", "assert_failed_inner", "panic", "panic_fmt") and \
+                            _assertion_expansion(b, bi):
+                        # an assertion macro (`debug_assert!`, `assert!`): a deliberate fail-stop on a
+                        # stated invariant; whether its condition can be false is value-level
+                        R.undecided_site("R-PANIC", b.label(), "assertion at %s: that its condition always holds is not decided" % where)
+                        continue
                     R.check("R-PANIC", b.label(), False, construct="diverging call %s" % tag[1],
                             where=where, detail="unexpected panic in an index-container write path")
                 elif tag[1] in ("unwrap", "expect"):
@@ -375,12 +484,44 @@ def r_nowrite_on_reject(F, R):
     ctx = Ctx(b)
     false_blocks = []
     true_blocks = []
+
+    def const_defs(l, depth=0):
+        """[(block, is_false)] when local l is only ever assigned boolean constants (directly or
+        through plain copies of such locals) -- `let accepted = match .. { .. => true, .. => false }`
+        -- else None"""
+        out = []
+        for bi_ in sorted(b.live_blocks()):
+            for st_ in b.blocks[bi_]["stmts"]:
+                if st_["k"] == "assign" and st_["place"]["l"] == l and not st_["place"]["p"]:
+                    rv_ = st_["rv"]
+                    if rv_["k"] == "use" and rv_["op"]["k"] == "const":
+                        out.append((bi_, rv_["op"].get("int") == "0"))
+                    elif rv_["k"] == "use" and rv_["op"]["k"] in ("copy", "move") and not rv_["op"]["place"]["p"] and depth < 3:
+                        sub = const_defs(rv_["op"]["place"]["l"], depth + 1)
+                        if sub is None:
+                            return None
+                        out += sub
+                    else:
+                        return None
+            t_ = b.term(bi_)
+            if t_["k"] == "call" and t_["dest"]["l"] == l:
+                return None
+        return out or None
+    merged_false = set()  # definition blocks of a `false` that reaches the exit through a result local
     for bi in sorted(b.live_blocks()):
         for st in b.blocks[bi]["stmts"]:
             if st["k"] == "assign" and st["place"]["l"] == 0 and not st["place"]["p"]:
                 rv = st["rv"]
                 if rv["k"] == "use" and rv["op"]["k"] == "const":
                     (false_blocks if rv["op"].get("int") == "0" else true_blocks).append(bi)
+                elif rv["k"] == "use" and rv["op"]["k"] in ("copy", "move") and not rv["op"]["place"]["p"] and \
+                        const_defs(rv["op"]["place"]["l"]) is not None:
+                    for (db, is_false) in const_defs(rv["op"]["place"]["l"]):
+                        if is_false:
+                            false_blocks.append(db)
+                            merged_false.add(db)
+                        else:
+                            true_blocks.append(db)
                 else:
                     false_blocks.append(bi)  # non-constant result: treat as possibly false
     # a result computed by a call (e.g. a recursive self.push) may be false as well
@@ -427,7 +568,8 @@ def r_nowrite_on_reject(F, R):
                 return True
         return False
     for fb in false_blocks:
-        bad = [(sb, ln) for (sb, ln) in stores if (sb == fb or fb in reach_strict(b, sb))
+        bad = [(sb, ln) for (sb, ln) in stores if (sb == fb or fb in reach_strict(b, sb) or
+                                                   (fb in merged_false and sb in reach_strict(b, fb)))
                and not guarded_true(sb, fb)]
         R.check("R-NOWRITE-ON-REJECT", b.label(), not bad,
                 construct="rejecting exit reached after a write through self",
@@ -537,6 +679,10 @@ def r_concat(F, R, cat=None):
                 ks = [k for k in d if k != 1]
                 full = len(ks) == 2 and all(d[k] == 1 for k in ks) and \
                     {which_field(k, b) for k in ks} == {first, second} and d.get(1, 0) == 0
+                if not full and len(ks) >= 2 and all(d[k] == 1 for k in ks) and d.get(1, 0) == 0:
+                    # the nested list's two levels added directly (`strided.len() + spilled.smol.len()
+                    # + spilled.chonk.len()`): the same sum, flattened
+                    full = _flattened_levels({_len_path(k) for k in ks}, F, adt, first, second, tl)
                 if full:
                     n_full += 1
                     continue
@@ -578,6 +724,22 @@ def r_concat(F, R, cat=None):
                     if r[0] == "place" and r[3]:
                         called.add(r[3][0][2:])
             ok = called == {first, second} and consts <= {"false"} and fields <= {first, second}
+            if not ok and consts <= {"false"}:
+                # is_empty over the flattened levels (`strided.is_empty() && spilled.smol.is_empty() && ..`)
+                paths = set()
+                for (bi, t) in b.calls():
+                    if callee_tag(t.get("callee"))[1] == "is_empty":
+                        r = operand_tree(c, t["args"][0])
+                        if r[0] == "place" and r[2] == ("arg", 1) and r[3]:
+                            paths.add(tuple(x[2:] for x in r[3] if x.startswith("f:")))
+                # a level that is an enum may be tested by its discriminant (`matches!(self.strided, Stride::Empty)`)
+                for blk in b.blocks:
+                    for st in blk["stmts"]:
+                        if st["k"] == "assign" and st["rv"]["k"] == "discr":
+                            for (r_, p_) in c.org.place(st["rv"]["place"]):
+                                if r_ == ("arg", 1) and p_ and p_[0].startswith("f:"):
+                                    paths.add((p_[0][2:],))
+                ok = _flattened_levels(paths, F, adt, first, second, tl)
             R.check("R-CONCAT", b.label(), ok,
                     construct="is_empty = %s.is_empty() && %s.is_empty()" % (first, second),
                     where=b.where(), detail="result from %s / constants %s; calls on %s" % (
@@ -672,6 +834,17 @@ def check_iter_next(F, R, iter_adt, mapping, first, second):
                 if (x[1][1] == "is_some" and f[2] is False) or (x[1][1] == "is_none" and f[2] is True):
                     exhausted = True
         if not exhausted:
+            # reached under a test of *another* field of the iterator (a phase flag set once the
+            # first part reported None): that the flag means "first part exhausted" is an invariant
+            # of the type across calls, not a path property of next()
+            state = [f for f in facts if f[0] in ("variant", "truthy", "Eq", "Ne") and isinstance(f[1], tuple) and
+                     any(nd[0] == "place" and nd[2] == ("arg", 1) and nd[3] and nd[3][0] not in ("f:" + ffield, "f:" + sfield)
+                         for nd in walk(f[1]))]
+            if state:
+                R.undecided_site("R-ITER", b.label(), "%s.next() at line %s runs under a test of other iterator state (%s): "
+                                 "that this state implies %s is exhausted is not decided" % (
+                                     sfield, t["line"], show(state[0][1])[:50], ffield))
+                continue
             ok = False
             why.append("%s.next() at line %s is not conditional on %s being exhausted" % (sfield, t["line"], ffield))
     # second consulted in an or_else fallback of the first
@@ -1212,3 +1385,30 @@ def _resolve_for(t, v, key):
     if _mentions_variant(t, key) and not _mentions_variant(t, key, v):
         return None
     return t
+
+
+def _len_path(k):
+    """field path of a length term"""
+    pl = None
+    if k[0] == "len" and k[1][0] == "place":
+        pl = k[1]
+    elif k[0] == "call" and k[1][1] == "len" and k[2] and k[2][0][0] == "place":
+        pl = k[2][0]
+    if pl is None or pl[2] != ("arg", 1):
+        return None
+    return tuple(x[2:] for x in pl[3] if x.startswith("f:"))
+
+
+def _flattened_levels(paths, F, adt, first, second, tl):
+    """the set of field paths is {first, second} with a level that is itself a two-level container
+    possibly replaced by its own two levels"""
+    if None in paths or not paths:
+        return False
+    paths = set(paths)
+    for fld in (first, second):
+        fty = next((f["ty"]["s"] for f in F.adts[adt]["variants"][0]["fields"] if f["name"] == fld), "")
+        nested = next(((f2, s2) for (a2, f2, s2, _) in tl if a2 != adt and a2.split("::")[-1] in fty), None)
+        if nested and (fld, nested[0]) in paths and (fld, nested[1]) in paths:
+            paths -= {(fld, nested[0]), (fld, nested[1])}
+            paths.add((fld,))
+    return paths == {(first,), (second,)}
